@@ -126,6 +126,9 @@ pub fn gen_atomic(m: &Material, rng: &mut Rng, k: &mut Knobs) -> Value {
         let of = if rng.chance(1, 2) && !m.snippets.is_empty() {
           let sn = rng.pick(&m.snippets).clone();
           if rng.chance(1, 2) { json!({"pattern": holed(&sn, rng, k)}) } else { json!({"pattern": format!("${}", if k.share_vars { "A".to_string() } else { k.var_counter += 1; format!("V{}", k.var_counter) })}) }
+        } else if rng.chance(1, 3) {
+          // relational / composite ofRule: it returns a node other than the sibling itself
+          gen_rule(m, rng, k, 1)
         } else if !m.kinds.is_empty() {
           json!({"kind": rng.pick(&m.kinds)})
         } else {
@@ -221,6 +224,28 @@ pub fn gen_core(m: &Material, rng: &mut Rng, share_vars: bool, depth: usize) -> 
     }
     core.insert("utils".into(), Value::Object(utils));
   }
+  // global utility rules (RuleCore: rule + constraints), usable through `matches`
+  if rng.chance(1, 4) {
+    let n = 1 + rng.below(2);
+    let mut globals = vec![];
+    for i in 0..n {
+      let mut g = serde_json::Map::new();
+      g.insert("id".into(), json!(format!("g{i}")));
+      let mut gk = Knobs { share_vars, utils: k.utils.iter().filter(|u| u.starts_with('g')).cloned().collect(), var_counter: k.var_counter };
+      let gd = 1 + rng.below(2);
+      g.insert("rule".into(), gen_rule(m, rng, &mut gk, gd));
+      if rng.chance(1, 2) {
+        let var = if share_vars { ["A", "B"][rng.below(2)].to_string() } else { format!("V{}", 1 + rng.below(gk.var_counter.max(1))) };
+        let mut cons = serde_json::Map::new();
+        cons.insert(var, gen_rule(m, rng, &mut gk, 1));
+        g.insert("constraints".into(), Value::Object(cons));
+      }
+      k.var_counter = gk.var_counter;
+      globals.push(Value::Object(g));
+      k.utils.push(format!("g{i}"));
+    }
+    core.insert("globals".into(), json!(globals));
+  }
   let rule = gen_rule(m, rng, &mut k, depth);
   core.insert("rule".into(), rule);
   if rng.chance(1, 5) {
@@ -233,9 +258,22 @@ pub fn gen_core(m: &Material, rng: &mut Rng, share_vars: bool, depth: usize) -> 
 }
 
 pub fn load_core(v: &Value, lang: SupportLang) -> Result<RuleCore<SupportLang>, String> {
+  let mut v = v.clone();
+  // `globals` is the harness's own key: global utility rule files of the project
+  let globals = v.as_object_mut().and_then(|o| o.remove("globals"));
   let text = v.to_string();
   let ser: SerializableRuleCore = from_str(&text).map_err(|e| format!("yaml: {e}"))?;
-  let env = DeserializeEnv::new(lang);
+  let mut env = DeserializeEnv::new(lang);
+  if let Some(Value::Array(gs)) = globals {
+    let mut utils = vec![];
+    for g in gs {
+      let mut g = g.clone();
+      g["language"] = json!(lang.to_string());
+      utils.push(from_str(&g.to_string()).map_err(|e| format!("global yaml: {e}"))?);
+    }
+    let reg = DeserializeEnv::parse_global_utils(utils).map_err(|e| format!("globals: {e}"))?;
+    env = env.with_globals(&reg);
+  }
   ser.get_matcher(env).map_err(|e| format!("core: {e}"))
 }
 
